@@ -44,10 +44,15 @@ NEEDS = {
  "C20-m1": "commit_checkpoint (unlink old segments) runs before the snapshot is saved: crash in between leaves acknowledged versions in no segment",
  "C20-m2": "rollover decided from a cached last-version set when a writer is opened (only right on a boundary): restart mid-segment then crossing the boundary writes out-of-range versions into the old segment, which the checkpoint then unlinks",
 }
+SRC = os.environ.get("SEED_SRC", "/tmp/mutout")
+OFFSET = int(os.environ.get("SEED_OFFSET", "0"))  # round 2: m1 -> m3, m2 -> m4
+EXTRA = {}
+if os.path.exists(f"{SRC}/NEEDS.json"):
+    EXTRA = json.load(open(f"{SRC}/NEEDS.json"))
 head = subprocess.run(["git", "-C", "/repo", "rev-parse", "--short", "HEAD"], capture_output=True, text=True).stdout.strip()
-for d in sorted(os.listdir("/tmp/mutout")):
+for d in sorted(x for x in os.listdir(SRC) if os.path.isdir(f"{SRC}/{x}")):
     for m in ("m1", "m2"):
-        src = f"/tmp/mutout/{d}/{m}"
+        src = f"{SRC}/{d}/{m}"
         log = f"{src}/confirm.log"
         if not os.path.exists(log):
             continue
@@ -63,7 +68,7 @@ for d in sorted(os.listdir("/tmp/mutout")):
         ok_suite = "70 passed; 2 failed" in suite
         ok_dw = "test result: FAILED" in dw
         ok_dwo = "test result: ok" in dwo and "FAILED" not in dwo
-        name = f"{d}-{m}"
+        name = f"{d}-m{int(m[1:]) + OFFSET}"
         if not (ok_suite and ok_dw and ok_dwo):
             print(name, "REJECTED suite/demo-with/demo-without =", ok_suite, ok_dw, ok_dwo)
             continue
@@ -80,7 +85,7 @@ for d in sorted(os.listdir("/tmp/mutout")):
             meta = json.load(open(f"{dst}/meta.json"))
         meta.update({
             "property": d,
-            "needs_to_manifest": NEEDS.get(name, "see NOTES.md"),
+            "needs_to_manifest": NEEDS.get(name, EXTRA.get(name, "see NOTES.md")),
             "confirmed_by_me": {
                 "where": f"scratch worktree /tmp/mut/{d} at /repo commit {base} (removed afterwards)",
                 "commands": ["git apply --3way patch.diff", "cargo test --offline --lib --no-fail-fast", f"cargo test --offline --test demo_{d}  (with the change)", f"git checkout -- . && cargo test --offline --test demo_{d}  (without the change)"],
